@@ -185,6 +185,22 @@ func runProp(prop string) int {
 			needSmoke = true
 			continue
 		}
+		if fn.TypeParams().Len() > 0 {
+			// a generic function: the contract is verified on every instantiation the
+			// program contains (the instances are what runs)
+			insts := append([]*ssa.Function{}, P.instances[fn]...)
+			sort.Slice(insts, func(i, j int) bool { return insts[i].String() < insts[j].String() })
+			if len(insts) == 0 {
+				rr.undecided = append(rr.undecided, fmt.Sprintf("%s (generic function without instantiations in the loaded packages)", k))
+				fmt.Printf("UNDECIDED %s: generic function is never instantiated in the loaded packages\n", k)
+				continue
+			}
+			for _, in := range insts {
+				todo[in] = con
+				order = append(order, in)
+			}
+			continue
+		}
 		todo[fn] = con
 		order = append(order, fn)
 	}
